@@ -127,6 +127,7 @@ type Ctx struct {
 	ftags []string
 	fblks []*ssa.BasicBlock
 	curTag string
+	noVariant []string // non-range loops without a variant
 	pend   []pendFact // hypothesis instances produced while building the current goal
 	curBlk *ssa.BasicBlock
 	reachCache map[[2]*ssa.BasicBlock]bool
